@@ -425,6 +425,12 @@ def check_name(res, case):
         for i in scenario_instances(f):
             insts.append(i)
             feat_of[id(i)] = f
+    if case.get("schema"):
+        # another name schema for outline rows (configuration file): the rows are selected by the names they GET
+        for i in insts:
+            if i["outline"] is not None:
+                i["name"] = u"%s [%s row %d]" % (i["name"].split(u" -- @")[0], i["ex"].get("name", u""), i["ri"])
+        res.label("name:other-annotation-schema")
     for kind, a, b in case["patterns"]:
         if not insts:
             break
@@ -437,20 +443,15 @@ def check_name(res, case):
         elif kind == "prefix":
             names.append("^" + re.escape(target[:1 + b % 3]))
         elif kind == "class":
-            names.append(["S[0-9]+$", "O\\d", "^.1", "@1\\.[12] ", "S(1|3)$", "nomatch", "[SO]2"][b % 7])
+            names.append(["S[0-9]+$", "O\\d", "^.1", "@1\\.[12] ", "S(1|3)$", "nomatch", "[SO]2", "row 1\\]$", " row "][b % 9])
     names = [n for n in names if n]
     if not names:
         res.label("name:none")
         return
     prog["cfg"] = dict(case.get("tagcfg") or {}, names=names)
-    suffix = u" [chrome, attempt 1]"
     if case.get("schema"):
-        # another name schema for outline rows (configuration file): the rows are selected by the names they GET
         prog["cfg"]["schema"] = u"{name} [{examples.name} row {row.index}]"
-        for i in insts:
-            if i["outline"] is not None:
-                i["name"] = u"%s [%s row %d]" % (i["name"].split(u" -- @")[0], i["ex"].get("name", u""), i["ri"])
-        res.label("name:other-annotation-schema")
+    suffix = u" [chrome, attempt 1]"
     if case.get("tagcfg"):
         res.label("name:with-tag-selection")
 
